@@ -31,7 +31,10 @@ func init() {
 			{ID: "R11d", Floor: 5, Doc: "byte-count bookkeeping of Marshal/WriteTo", Run: ruleR11d},
 			{ID: "R11f", Floor: 1, Doc: "Flatten hands every record of the session to the on-disk index (no record skipped)", Run: ruleR11f},
 			{ID: "R11g", Floor: 1, Doc: "the read-side bucket-width cap admits everything the default write-side CID limit admits", Run: ruleR11g},
+			{ID: "R11h", Floor: 5, Doc: "wire-layout agreement: for every index type the sequence of fixed-width fields its Marshal writes with binary.Write equals, width for width, the sequence its Unmarshal reads with binary.Read", Run: ruleR11h},
+			{ID: "R11i", Floor: 2, Doc: "decode loops store a fresh object per iteration: a pointer put into an index container inside a loop of package index points to an allocation made in that iteration (a pointer to a variable declared outside the loop makes every entry alias the last one decoded)", Run: ruleR11i},
 			{ID: "R11e", Floor: 1, Doc: "rescan indexes every section (= R12c)", Run: ruleR12c},
+			{ID: "R11j", Floor: 1, Doc: "index generation loads all records in one Load (bucket-overwriting codecs lose earlier batches) (= R03h)", Run: ruleR03h},
 		},
 	})
 }
@@ -334,6 +337,21 @@ func ruleR11b(c *Ctx, r *Report) {
 				bad = ""
 			}
 		}
+		// library sorts that are ascending by definition
+		eachInstr(fn, func(in ssa.Instruction) {
+			ci, ok := in.(ssa.CallInstruction)
+			if !ok {
+				return
+			}
+			f := calleeFunc(ci.Common())
+			if f == nil || f.Pkg() == nil {
+				return
+			}
+			switch f.Pkg().Path() + "." + f.Name() {
+			case "slices.Sort", "slices.Sorted", "sort.Ints", "sort.Strings", "sort.Float64s":
+				bad = ""
+			}
+		})
 		for _, sc := range callsToFunc(fn, "sort", "", "Slice") {
 			mc, ok := sc.Common().Args[1].(*ssa.MakeClosure)
 			if !ok {
@@ -393,7 +411,7 @@ func ruleR11c(c *Ctx, r *Report) {
 			continue
 		}
 		if k, ok := constInt(bo.Y); ok {
-			cases = append(cases, caseK{k, Edge{b, 0}})
+			cases = append(cases, caseK{k, Edge{From: b, Succ: 0}})
 		}
 	}
 	sort.Slice(cases, func(i, j int) bool { return cases[i].k < cases[j].k })
@@ -666,11 +684,27 @@ func ruleR11f(c *Ctx, r *Report) {
 		return
 	}
 	key := "flatten-copies-all@" + fnKey(fn)
-	if len(fn.AnonFuncs) != 1 {
-		r.Undec(key, c.Pos(fn.Pos()), "iterator closure not found")
+	// the iterator: whatever function value is handed to the tree walk (a closure, or a method value)
+	var it *ssa.Function
+	eachInstr(fn, func(in ssa.Instruction) {
+		ci, ok := in.(*ssa.Call)
+		if !ok {
+			return
+		}
+		if f := calleeFunc(ci.Common()); f != nil && strings.HasPrefix(f.Name(), "Ascend") {
+			args := ci.Common().Args
+			if t := funcValueTarget(args[len(args)-1]); t != nil {
+				it = t
+			}
+		}
+	})
+	if it == nil && len(fn.AnonFuncs) == 1 {
+		it = fn.AnonFuncs[0]
+	}
+	if it == nil {
+		r.Undec(key, c.Pos(fn.Pos()), "iterator function not found")
 		return
 	}
-	it := fn.AnonFuncs[0]
 	// the store of the record into the output slice (or an append to it)
 	var sink ssa.Instruction
 	eachInstr(it, func(in ssa.Instruction) {
@@ -691,7 +725,7 @@ func ruleR11f(c *Ctx, r *Report) {
 	} else {
 		cut := EdgeSet{}
 		for i := range sink.Block().Succs {
-			cut[Edge{sink.Block(), i}] = true
+			cut[Edge{From: sink.Block(), Succ: i}] = true
 		}
 		reachable := reach(it, nil, cut)
 		for _, ret := range returnsOf(it) {
@@ -743,4 +777,176 @@ func ruleR11g(c *Ctx, r *Report) {
 		}
 	})
 	r.Check(bad == "", key, c.Pos(fn.Pos()), "width cap >= DefaultMaxIndexCidSize + 8", bad)
+}
+
+// ruleR11h: the fixed-width fields of each index serialisation are written and
+// read with the same widths in the same order. Only encoding/binary calls are
+// recognised; a side that frames its fields some other way is exempt (the floor
+// keeps the rule from passing vacuously).
+func ruleR11h(c *Ctx, r *Report) {
+	sizes := types.SizesFor("gc", "amd64")
+	widths := func(fn *ssa.Function, callee string) ([]int64, bool) {
+		type at struct {
+			pos token.Pos
+			w   int64
+		}
+		var seq []at
+		ok := true
+		eachInstr(fn, func(in ssa.Instruction) {
+			ci, isCall := in.(*ssa.Call)
+			if !isCall {
+				return
+			}
+			f := calleeFunc(ci.Common())
+			if !funcIs(f, "encoding/binary", "", callee) || len(ci.Call.Args) != 3 {
+				return
+			}
+			v := ci.Call.Args[2]
+			if mi, isMI := v.(*ssa.MakeInterface); isMI {
+				v = mi.X
+			}
+			t := v.Type()
+			if callee == "Read" {
+				pt, isPtr := t.Underlying().(*types.Pointer)
+				if !isPtr {
+					ok = false
+					return
+				}
+				t = pt.Elem()
+			}
+			b, isBasic := t.Underlying().(*types.Basic)
+			if !isBasic || b.Info()&(types.IsInteger|types.IsFloat) == 0 || b.Kind() == types.Int || b.Kind() == types.Uint || b.Kind() == types.Uintptr {
+				ok = false
+				return
+			}
+			seq = append(seq, at{ci.Pos(), sizes.Sizeof(t)})
+		})
+		sort.Slice(seq, func(i, j int) bool { return seq[i].pos < seq[j].pos })
+		var out []int64
+		for _, a := range seq {
+			out = append(out, a.w)
+		}
+		return out, ok
+	}
+	for _, tn := range []string{"singleWidthIndex", "multiWidthIndex", "multiWidthCodedIndex", "MultihashIndexSorted", "InsertionIndex"} {
+		m, err1 := c.Func(pkgIndex, tn, "Marshal")
+		u, err2 := c.Func(pkgIndex, tn, "Unmarshal")
+		if err1 != nil || err2 != nil {
+			r.InfraFail("R11h: %v %v", err1, err2)
+			continue
+		}
+		key := "wire-layout@v2/index." + tn
+		wm, okm := widths(m, "Write")
+		wu, oku := widths(u, "Read")
+		switch {
+		case !okm || !oku:
+			r.Viol(key, c.Pos(m.Pos()), "a field is written or read with encoding/binary through a type without a fixed wire width (int, uint, or a non-numeric value)")
+		case len(wm) == 0 || len(wu) == 0:
+			r.Exempt(key, c.Pos(m.Pos()), "one side does not use encoding/binary for its fixed-width fields; not compared")
+		case fmt.Sprint(wm) != fmt.Sprint(wu):
+			r.Viol(key, c.Pos(u.Pos()), fmt.Sprintf("Marshal writes fixed-width fields of %v bytes, Unmarshal reads %v bytes: every later field is decoded from shifted bytes", wm, wu))
+		default:
+			r.Hold(key, c.Pos(m.Pos()), fmt.Sprintf("fields %v bytes on both sides", wm))
+		}
+	}
+}
+
+// ruleR11i: aliasing in the Unmarshal/Load loops of package index.
+func ruleR11i(c *Ctx, r *Report) {
+	inCycleWith := func(fn *ssa.Function, a, b *ssa.BasicBlock) bool {
+		// a and b lie on a common cycle: each reaches the other through at least one edge
+		fwd := map[*ssa.BasicBlock]bool{}
+		for _, sc := range a.Succs {
+			for k := range reach(fn, sc, nil) {
+				fwd[k] = true
+			}
+		}
+		if !fwd[b] {
+			return false
+		}
+		back := map[*ssa.BasicBlock]bool{}
+		for _, sc := range b.Succs {
+			for k := range reach(fn, sc, nil) {
+				back[k] = true
+			}
+		}
+		return back[a]
+	}
+	for _, fn := range c.RepoFuncs() {
+		if fn.Pkg == nil || fn.Pkg.Pkg.Path() != pkgIndex {
+			continue
+		}
+		ord := 0
+		eachInstr(fn, func(in ssa.Instruction) {
+			var stored ssa.Value
+			switch x := in.(type) {
+			case *ssa.MapUpdate:
+				stored = x.Value
+			case *ssa.Call:
+				f := calleeFunc(x.Common())
+				if f == nil || f.Name() != "put" || f.Pkg() == nil || f.Pkg().Path() != pkgIndex {
+					return
+				}
+				args := callArgs(x.Common())
+				stored = args[len(args)-1]
+			default:
+				return
+			}
+			if _, isPtr := stored.Type().Underlying().(*types.Pointer); !isPtr {
+				return
+			}
+			// only sites inside a loop
+			if !inCycleWith(fn, in.Block(), in.Block()) {
+				return
+			}
+			ord++
+			key := fmt.Sprintf("fresh-per-iteration@%s#%d", fnKey(fn), ord)
+			bad := ""
+			for _, o := range origins(stored, originOpts{}) {
+				var at *ssa.BasicBlock
+				switch v := o.Val.(type) {
+				case *ssa.Alloc:
+					at = v.Block()
+				case ssa.Instruction:
+					at = v.Block()
+				}
+				if o.Kind == "param" || o.Kind == "const" {
+					continue
+				}
+				if at == nil || !(at == in.Block() || inCycleWith(fn, at, in.Block())) {
+					bad = fmt.Sprintf("the pointer stored at %s refers to an object created outside the loop (%s at %s): every iteration stores the same address, so all entries alias the one decoded last", c.Pos(in.Pos()), o.Kind, c.Pos(o.Val.Pos()))
+				}
+			}
+			r.Check(bad == "", key, c.Pos(in.Pos()), "the stored pointer is allocated inside the loop", bad)
+		})
+	}
+}
+
+// funcValueTarget resolves a function value to the function that runs: a closure's
+// body, a named function, or — for a method value — the method behind the bound wrapper.
+func funcValueTarget(v ssa.Value) *ssa.Function {
+	var f *ssa.Function
+	switch x := canon(v).(type) {
+	case *ssa.MakeClosure:
+		f, _ = x.Fn.(*ssa.Function)
+	case *ssa.Function:
+		f = x
+	}
+	if f == nil {
+		return nil
+	}
+	if f.Synthetic != "" && len(f.Blocks) > 0 {
+		var tgt *ssa.Function
+		eachInstr(f, func(in ssa.Instruction) {
+			if ci, ok := in.(ssa.CallInstruction); ok {
+				if sc := ci.Common().StaticCallee(); sc != nil {
+					tgt = sc
+				}
+			}
+		})
+		if tgt != nil {
+			return tgt
+		}
+	}
+	return f
 }
